@@ -109,6 +109,8 @@ Inductive beh :=
 (* arguments: number of opaque calls made so far, callee name, positional and keyword arguments, heap *)
 Definition oracle := nat -> string -> list val -> list (string * val) -> heap -> beh.
 
+(* the oracle's index: number of opaque calls logged so far *)
+Definition log_len (l : list (string * list val * list (string * val))) : nat := List.length l.
 (* an opaque call as logged: callee name, positional and keyword arguments *)
 Definition event := (string * list val * list (string * val))%type.
 (* heap and the log of opaque calls made so far, newest first *)
@@ -521,7 +523,7 @@ Definition evalkw_step (R : recs) (en : env) (kw : list (string * expr)) (s : st
     end.
 
 (* an opaque call: ask the oracle (indexed by the number of opaque calls made so far), log the call *)
-Definition ocall_step (R : recs) (g : string) (args : list val) (kw : list (string * val)) (s : st) : eres := r_run_beh R (Orc (List.length (snd s)) g args kw (fst s)) ((g, args, kw) :: snd s).
+Definition ocall_step (R : recs) (g : string) (args : list val) (kw : list (string * val)) (s : st) : eres := r_run_beh R (Orc (log_len (snd s)) g args kw (fst s)) ((g, args, kw) :: snd s).
 
 (* run what an opaque callee does; n = the call log including this call *)
 Definition run_beh_step (R : recs) (b : beh) (n : list event) : eres :=
